@@ -209,6 +209,7 @@ func ruleC13InsertOnly(c *Ctx) {
 				}
 				// absent edge of a lookup of the same key(s)
 				absent := false
+				var lookups []*ssa.Lookup
 				for _, fct := range factsAt(i.Block()) {
 					ex, isEx := strip(fct.V).(*ssa.Extract)
 					if !isEx || ex.Index != 1 || fct.True {
@@ -221,13 +222,38 @@ func ruleC13InsertOnly(c *Ctx) {
 					if inner {
 						if l2, isL2 := resolve(lk.X).(*ssa.Lookup); isL2 && strip(l2.Index) == strip(resolve(mu.Map).(*ssa.Lookup).Index) && strip(lk.Index) == strip(mu.Key) {
 							absent = true
+							lookups = append(lookups, lk)
 						}
 					} else if strip(lk.Index) == strip(mu.Key) && strings.HasSuffix(accessPath(lk.X), ".Envelopes") {
 						absent = true
+						lookups = append(lookups, lk)
 					}
 				}
 				st := d.stateAt(i)
+				// check-then-act must be one critical section: the lookup runs under the write lock and the lock is not
+				// released between the lookup and the write
+				sameSection := true
+				rp := recvPathOf(store)
+				for _, lk := range lookups {
+					if d.stateAt(lk) != lsW {
+						sameSection = false
+					}
+					found, _ := pathSearch(lk, func(j ssa.Instruction) pathAction {
+						if j == i {
+							return pathStop
+						}
+						if op, ok := d.lockOp(j, rp); ok && op == lsU && reaches(j, i) {
+							return pathFound
+						}
+						return pathContinue
+					}, nil)
+					if found {
+						sameSection = false
+					}
+				}
 				switch {
+				case absent && !sameSection:
+					c.bad(construct, u.ipos(i), "the 'not present' lookup and the map write are not in one write-locked critical section (check-then-act race: two concurrent Stores of the same key both insert and both report true)")
 				case !absent:
 					c.bad(construct, u.ipos(i), "the map is written without being on the 'not present' edge of a lookup of the same key: an existing record can be overwritten")
 				case st != lsW:
@@ -848,6 +874,23 @@ func fieldProvenance(v ssa.Value) string {
 		if staticIs(x, "(*encoding/base64.Encoding).EncodeToString") && isStdEncoding(x.Call.Args[0]) {
 			return "base64enc(" + accessPath(x.Call.Args[1]) + ")"
 		}
+	case *ssa.Convert:
+		// string(buf) where buf was filled by StdEncoding.Encode(buf, src)
+		if src := base64BufferSource(x.X, "Encode"); src != nil {
+			return "base64enc(" + accessPath(src) + ")"
+		}
+	case *ssa.Slice:
+		// buf[:n] where n, err := StdEncoding.Decode(buf, []byte(src))
+		if src := base64BufferSource(x.X, "Decode"); src != nil && x.Low == nil && x.High != nil {
+			if ex, ok := resolve(x.High).(*ssa.Extract); ok && ex.Index == 0 {
+				if call, ok := ex.Tuple.(*ssa.Call); ok && staticIs(call, "(*encoding/base64.Encoding).Decode") {
+					if cv, ok := resolve(src).(*ssa.Convert); ok {
+						src = cv.X
+					}
+					return "base64dec(" + accessPath(src) + ")"
+				}
+			}
+		}
 	case *ssa.Extract:
 		if call, ok := x.Tuple.(*ssa.Call); ok && staticIs(call, "(*encoding/base64.Encoding).DecodeString") && isStdEncoding(call.Call.Args[0]) && x.Index == 0 {
 			return "base64dec(" + accessPath(call.Call.Args[1]) + ")"
@@ -863,4 +906,22 @@ func isStdEncoding(v ssa.Value) bool {
 	}
 	g, ok := ld.X.(*ssa.Global)
 	return ok && g.Pkg.Pkg.Path() == "encoding/base64" && g.Name() == "StdEncoding"
+}
+
+// base64BufferSource: buf is a locally made byte slice passed as destination to StdEncoding.<meth>(buf, src); returns src.
+func base64BufferSource(buf ssa.Value, meth string) ssa.Value {
+	buf = resolve(buf)
+	if _, ok := buf.(*ssa.MakeSlice); !ok {
+		return nil
+	}
+	refs := buf.Referrers()
+	if refs == nil {
+		return nil
+	}
+	for _, r := range *refs {
+		if call, ok := r.(*ssa.Call); ok && staticIs(call, "(*encoding/base64.Encoding)."+meth) && isStdEncoding(call.Call.Args[0]) && call.Call.Args[1] == buf {
+			return call.Call.Args[2]
+		}
+	}
+	return nil
 }
